@@ -52,6 +52,8 @@ def gen_inputs(ctx):
                 items[b] = ("res", None, [pdbgen.setcols(pdbgen.setcols(l, 22, 26, num), 26, 27, "A") for l in items[b][2]])
                 lines = pdbgen.flatten(items)
         out.append(("gen%d" % i, pdbgen.text(lines)))
+    # bridged cysteines named in the list stay non-titrating
+    out.append(("ss-bridge", pdbgen.text(pdbgen.ss_fragment())))
     return out
 
 
@@ -68,6 +70,8 @@ def run(ctx):
         # (1) random sublists
         for rep in range(2 if ctx.quick() else 4):
             L = rnd.sample(res, max(1, len(res) // rnd.choice([2, 3, 5])))
+            if name == "ss-bridge" and rep == 0:
+                L = list(res)
             if rep == 1:
                 L = L + L[:2]
                 rnd.shuffle(L)
